@@ -268,7 +268,7 @@ func runC04(c *Ctx) {
 	// random histories with several faults
 	n := 40
 	if !c.Quick() {
-		n = 1500
+		n = 6000
 	}
 	for i := 0; i < n; i++ {
 		var steps []wstep
